@@ -950,7 +950,15 @@ def run(ctx):
     ctx.lean_build([PROPS, "pdshmodel"])
     ctx.audit(PROPS)
     cov = {"evaluations": 0, "distinct_nontrivial": 0, "samples": [],
-           "rule": "cases = interleavings of labelled lines `host: body` from generated host-name sets (prefix+number "
+           "rule": "PINNED FIRST (pinned_cases, no randomness): label classes (dots/dashes/digits, 09->10 and 099->100 bridges, mixed "
+                   "widths, numeric-only, suffix-only differences, several prefixes under one suffix, digit-free, long, 15-20 digit "
+                   "numbers) and body classes (trailing blank / CR / one line anywhere differs, prefix of another, permuted, repeated, "
+                   "leading colon, `: ` inside, label-like, 100 kB lines, 300 lines, binary, divider look-alikes) and line formats (no "
+                   "blank after the colon, blanks around the label, CRLF, unterminated last line) each in report/-c/-d x 2 hash seeds; "
+                   "OPTIONS: every subset of -c -h -f x -d absent / an existing directory / missing / a plain file / new/deep / `0` / "
+                   "`` / `00` / `0.0`, both option orders, against Dshbak/Options.lean `plan` and the per-file specification; -d with "
+                   "every pair of 11 labels of which 7 are paths (./x, a/b, ../esc, ., .., x/, a//b) x 2 hash seeds.  THEN "
+                   "cases = interleavings of labelled lines `host: body` from generated host-name sets (prefix+number "
                    "with mixed zero padding around 9/10, 99/100, 999/1000, numeric-only names, name 0, suffixes after "
                    "the number, digits inside prefixes, digit-free names), 1-4 shared body templates (empty lines, "
                    "leading blanks, colons), optional blanks around the label, noise lines without a label, modes "
